@@ -262,6 +262,11 @@ func execC14(sc *Scenario, rep Replica) c14Exec {
 	}
 	var ex c14Exec
 	ex.multi = map[int]bool{}
+	// the step ceiling scales with the amount of source text (a tree of 40 pages is legitimate)
+	var Budget int64 = Budget
+	for _, f := range sc.Files {
+		Budget += 300 * int64(len(f.Data))
+	}
 	for _, op := range sc.Ops {
 		o := w.RunOp(op, Budget)
 		ex.obs = append(ex.obs, o)
@@ -383,6 +388,16 @@ func (p c14) check(sc *Scenario, acc *Acc, minimise bool) *Violation {
 		oh = hashStr(oh, o.Key())
 	}
 	acc.ObsHash[sc.Run] = oh
+	for _, o := range base.obs {
+		if o.Kind == "abort" && strings.Contains(o.Err, "step budget") {
+			// the canonical execution did not finish within the simulator's own ceiling: nothing that
+			// happens after that point (tasks being unwound) is behaviour of the code under test, so
+			// there is nothing to compare. Hangs are C18's business, with budgets scaled for it.
+			acc.Evals++
+			acc.Probe("scenarios-skipped-canonical-run-exceeds-step-budget", 1)
+			return nil
+		}
+	}
 	hashes := map[uint64]bool{base.hash: true}
 	anyMulti := len(base.multi) > 0
 	acc.Evals++
